@@ -133,6 +133,16 @@ def handle (ts : List String) : String :=
     | some (mc, _), some (some n, []) => s!"ok {b2s (triggered mc n)}"
     | _, some (none, []) => "raise"
     | _, _ => "bad-op"
+  | "iaddx" :: r =>
+    -- `self += other` as executed on a CombinedDetector: accepted flag and the antennas held afterwards
+    match pTree 64 r with
+    | some (.comb self, r) =>
+      match pTree 64 r with
+      | some (other, []) =>
+        let (after, ok) := iaddExec self other
+        s!"{if ok then "ok" else "refused"} | {idsS (flattenL after)}"
+      | _ => "bad-op"
+    | _ => "bad-op"
   | "clear" :: r =>
     match pExpr 64 r with
     | some (some n, []) => s!"ok {treeS (clear n)}"
